@@ -56,6 +56,8 @@ type fail struct {
 // certificate list held by a certificate file; nil = no usable certificate
 func fileChain(name string) []string {
 	switch name {
+	case "E1lead", "E1crlf", "E1trail": // the same certificate in an odd but legal PEM shape
+		return []string{"E1"}
 	case "R1", "E1", "D1":
 		return []string{name}
 	case "chain":
@@ -71,7 +73,7 @@ func keyIdentity(name string) string {
 		return "R1"
 	case "kR2":
 		return "R2"
-	case "kE1", "wE1":
+	case "kE1", "wE1", "kE1lead", "kE1crlf", "kE1trail":
 		return "E1"
 	case "kE2":
 		return "E2"
@@ -84,8 +86,12 @@ func keyIdentity(name string) string {
 // certificates held by a CA file; ok=false: the file cannot be read at all
 func caFileRoots(name string) (roots []string, readable bool) {
 	switch name {
-	case "A", "mixed":
+	case "A", "mixed", "lead", "crlf", "trail", "unipath":
 		return []string{"A"}, true
+	case "BA":
+		return []string{"A", "B"}, true
+	case "empty":
+		return nil, true
 	case "B":
 		return []string{"B"}, true
 	case "AB":
@@ -146,7 +152,7 @@ func reference(o Opts) ref {
 	switch {
 	case o.CertFile == "" && o.KeyFile == "" && o.LoadedCert == "" && o.LoadedKey == "":
 		clean = true
-	case fileOK && o.LoadedCert == "" && o.LoadedKey == "":
+	case fileOK && o.LoadedCert == "" && o.LoadedKey == "" && !oddShape(o.CertFile) && !oddShape(o.KeyFile):
 		clean = true
 	case loadedOK && o.CertFile == "" && o.KeyFile == "" && (strings.HasPrefix(o.LoadedKey, "kR") || strings.HasPrefix(o.LoadedKey, "kE")):
 		clean = true
@@ -174,7 +180,7 @@ func reference(o Opts) ref {
 			r.rootMust[x] = true
 		}
 	}
-	if o.CAFile != "" && (!readable || o.CAFile == "garbage" || o.CAFile == "mixed") {
+	if o.CAFile != "" && (!readable || o.CAFile == "garbage" || o.CAFile == "mixed" || o.CAFile == "empty" || oddShape(o.CAFile)) {
 		r.errAllowed = true
 		if r.errWhy == "" {
 			r.errWhy = "CA file is unreadable or holds unusable material"
@@ -184,6 +190,13 @@ func reference(o Opts) ref {
 	// no server-name override is given"
 	r.skipAllowed = o.Insecure && o.ServerName == ""
 	return r
+}
+
+// oddShape: usable material in a legal but unusual PEM shape (text before the block, CRLF line
+// ends, garbage after the block). A configuration built from it must carry the material; an
+// implementation that refuses it with an error is not contradicted by the text (MAY).
+func oddShape(name string) bool {
+	return strings.HasSuffix(name, "lead") || strings.HasSuffix(name, "crlf") || strings.HasSuffix(name, "trail")
 }
 
 func set(m map[string]bool) string {
